@@ -170,6 +170,21 @@ def bar_rules(ctx: Ctx, explain: bool = False) -> None:
     bar_copy(ctx)
 
 
+_WHOLE_WRAPPERS = {"list", "tuple", "iter", "reversed", "sorted"}
+
+
+def _whole_iter(e: ast.AST) -> bool:
+    """The iterable visits every message of the sequence: an accessor (attribute chain, zero-argument method call) possibly wrapped in
+    list/tuple/iter/reversed/sorted -- no slice, no takewhile/islice/filter or other call that receives it as an argument."""
+    while isinstance(e, ast.Call) and isinstance(e.func, ast.Name) and e.func.id in _WHOLE_WRAPPERS and len(e.args) == 1 and not e.keywords:
+        e = e.args[0]
+    if isinstance(e, ast.Call):
+        return isinstance(e.func, ast.Attribute) and not e.args and not e.keywords and _whole_iter(e.func.value)
+    if isinstance(e, ast.Attribute):
+        return _whole_iter(e.value)
+    return isinstance(e, ast.Name)
+
+
 def _partition_selects(fi, name: str):
     """How the list `name` is filled by a loop over the sequence's messages: the polarity of the `message_type ? TIME_SIGNATURE` test
     that governs `name.append(<loop variable>)` -- "ts" (exactly the signatures), "rest" (exactly the others), or None."""
@@ -182,6 +197,8 @@ def _partition_selects(fi, name: str):
     lp = next((a for a in ancestors(apps[0]) if isinstance(a, ast.For)), None)
     if lp is None or not isinstance(lp.target, ast.Name) or src(apps[0].args[0]) != lp.target.id or lp.lineno < inits[0].lineno \
             or any(isinstance(x, (ast.Break, ast.Continue, ast.Return)) for x in ast.walk(lp)):
+        return None
+    if not _whole_iter(lp.iter):
         return None
     pcs = [(t, h) for t, h in path_conditions(apps[0]) if any(a is lp for a in ancestors(t))]
     if len(pcs) != 1:
@@ -226,7 +243,7 @@ def signature_rewrite(ctx: Ctx, fi, fields: dict | None = None) -> None:
                             and enum_member(conds[0].comparators[0], "MessageType") == "TIME_SIGNATURE" \
                             and isinstance(conds[0].left, ast.Attribute) and conds[0].left.attr == "message_type" \
                             and isinstance(a.elt, ast.Name) and isinstance(a.generators[0].target, ast.Name) \
-                            and a.elt.id == a.generators[0].target.id:
+                            and a.elt.id == a.generators[0].target.id and _whole_iter(a.generators[0].iter):
                         ok = True
                 elif isinstance(a, ast.Name) and _partition_selects(fi, a.id) == "rest":
                     ok = True                  # the other half of a loop that sets the signatures aside
@@ -348,6 +365,11 @@ def signature_rewrite(ctx: Ctx, fi, fields: dict | None = None) -> None:
             ctx.check(okl, "SIG", inst + f" `{a.targets[0].id}` collects the TIME_SIGNATURE events", function=FN,
                       construct="the list tested by the signature rejections is not `the TIME_SIGNATURE events of the sequence`",
                       message=short(a.value, 100), file=fi.file, node=a)
+            # ... of the *whole* sequence: the iterable is the sequence's message accessor itself, not a prefix, slice or filtered view of it
+            it = a.value.generators[0].iter
+            ctx.check(_whole_iter(it), "SIG", inst + f" `{a.targets[0].id}` is drawn from the whole sequence", function=FN,
+                      construct="the list tested by the signature rejections is drawn from a part of the sequence only",
+                      message=f"iterates `{short(it, 100)}`: a signature outside that part is neither counted nor compared, the bar is accepted", file=fi.file, node=a)
     # the bar remembers the signature and key it was built with
     stored = {t.attr: src(a.value) for a in walk_local(fi.node) if isinstance(a, ast.Assign) for t in a.targets
               if isinstance(t, ast.Attribute) and isinstance(t.value, ast.Name) and t.value.id == "self" and isinstance(a.value, ast.Name)}
